@@ -502,10 +502,46 @@ fn scaling_case(src: &mut Src, ctx: &mut Ctx) -> Result<(), String> {
     Ok(())
 }
 
+// ---- time scaling: CPU time for an input four times as long -----------------------------------------------
+fn time_stream(shape: u64, n: usize) -> Vec<u8> {
+    let d = [1i16; 12];
+    let c = MCommon::default();
+    let bnd = |c: &MCommon| MElem::Boundary { layer: 1, datatype: 0, xy: vec![(0, 0), (1, 0), (1, 1), (0, 1), (0, 0)], c: c.clone() };
+    let st: Vec<MStruct> = match shape {
+        // many empty structures
+        0 => (0..n).map(|s| MStruct { name: format!("cell_number_{}", s), dates: d, elems: vec![] }).collect(),
+        // many structures with one element each
+        1 => (0..n / 2).map(|s| MStruct { name: format!("c{}", s), dates: d, elems: vec![bnd(&c)] }).collect(),
+        // one structure, many elements
+        2 => vec![MStruct { name: "big".into(), dates: d, elems: (0..n / 3).map(|i| if i % 2 == 0 { bnd(&c) } else { MElem::Text { string: format!("t{}", i), layer: 1, texttype: 0, xy: (0, 0), presentation: None, path_type: None, width: None, strans: None, c: c.clone() } }).collect() }],
+        // one element, many properties
+        3 => {
+            let mut cc = MCommon::default();
+            cc.props = (0..n / 2).map(|i| ((i % 100) as i16, format!("v{}", i))).collect();
+            vec![MStruct { name: "props".into(), dates: d, elems: vec![bnd(&cc)] }]
+        }
+        // many structures, each referring to the one before
+        _ => (0..n / 3).map(|s| MStruct { name: format!("r{}", s), dates: d, elems: if s == 0 { vec![] } else { vec![MElem::Sref { name: format!("r{}", s - 1), xy: (0, 0), strans: None, c: c.clone() }] } }).collect(),
+    };
+    let m = MLib { name: "time".into(), version: 3, dates: d, units: (1e-3f64.to_bits(), 1e-9f64.to_bits()), structs: st };
+    S::encode(&m, &S::EncOpts::default()).out
+}
+fn time_case(src: &mut Src, ctx: &mut Ctx) -> Result<(), String> {
+    let shape = src.u64() % 5;
+    let n = 24_000usize;
+    let (a, b) = (time_stream(shape, n), time_stream(shape, 4 * n));
+    ctx.nontrivial(hash_of(&shape));
+    let what = ["many empty structures", "many one-element structures", "many elements in one structure", "many properties on one element", "a long chain of references"][shape as usize];
+    let r = alloc::quadruples_badly(|big| GdsLibrary::from_bytes(if big { &b } else { &a }).is_ok()).map_err(|e| format!("reading time grows faster than the input ({}: {} and {} bytes): {}", what, a.len(), b.len(), e))?;
+    ctx.label(&format!("time scaling, {}: x{:.0} CPU time for x4 input", what, (r.1 / r.0.max(1e-6)).round()));
+    ctx.sample("time scaling", || format!("{}: {} bytes in {:.1} ms, {} bytes in {:.1} ms of CPU time", what, a.len(), r.0 * 1e3, b.len(), r.1 * 1e3));
+    Ok(())
+}
+
 fn run(run: &mut Run) {
     engine::journal::set_hang_ms(30_000);
     run.rule("Base streams: 30 generated valid streams (all element kinds, <= ~2 KB), one stream with a 32 KB XY record, 3 repository files. (i) every truncation point of every base; (ii) every single-record fault (6 length faults, empty payload, 64 record types, 8 data types, delete/duplicate/swap, 8 splices) at every record of the generated bases and every n-th record of the repository files; (ii-b) a well-formed record of each of the 64 record types x 11 payload shapes inserted at every record boundary of the generated bases; (ii-c) floods: each of those records repeated 100 000 times at library, structure and element level of two bases, read on a 2 MB stack; (iii) proptest-driven byte mutations and noise; extreme/unnormalised reals in UNITS; allocation scaling. Non-trivial = faulted stream differs from its base; distinct by hash of the bytes.");
-    run.assume("termination is observed as: the call returns before the supervisor's hang watchdog / 60 s CPU limit; 'time proportional to input' is approximated by allocation volume at most doubling when the input doubles");
+    run.assume("termination is observed as: the call returns before the supervisor's hang watchdog / 60 s CPU limit; 'time proportional to input' is checked as (a) allocation volume at most doubling when the input doubles and (b) best-of-three thread CPU time growing at most 8-fold (+20 ms) when the input quadruples, on five stream shapes of about 1 to 4 MB");
     run.assume("which error is returned is not asserted");
     run.min_nontrivial = 1000;
     run.enumerate("truncations", *trunc_table().last().unwrap(), &trunc_case);
@@ -518,6 +554,7 @@ fn run(run: &mut Run) {
     run.enumerate("reals", np * np, &reals_case);
     run.explore("mutations", run.tier.pick(400_000, 4_000_000), 64, &noise_case);
     run.enumerate("alloc-scaling", run.tier.pick(2 * 5, 2 * 7), &scaling_case);
+    run.enumerate("time-scaling", 5, &time_case);
 }
 fn case(sub: &str) -> Option<Box<CaseFn<'static>>> {
     match sub {
@@ -532,6 +569,7 @@ fn case(sub: &str) -> Option<Box<CaseFn<'static>>> {
         "reals" => Some(Box::new(reals_case)),
         "mutations" => Some(Box::new(noise_case)),
         "alloc-scaling" => Some(Box::new(scaling_case)),
+        "time-scaling" => Some(Box::new(time_case)),
         "raw-file" => Some(Box::new(|src: &mut Src, ctx: &mut Ctx| {
             let mut bytes = vec![];
             while !src.exhausted() {
